@@ -319,4 +319,28 @@ theorem proveMulti_rel (H : List ByteArray → Int) (m : OvfMode)
   rw [tauBytes_rel h hi, cBytes_rel h hi]
   exact ORel.map (finalizeAll_rel _ h hi) fun sps sps' hs => ⟨hs, rfl, rfl⟩
 
+section withNonRevoc
+variable {o : GroupOps G} {o' : GroupOps G'}
+
+/-- `proveSingleWith` (a presentation that also carries a non-revocation part, whose encoded
+tau- and c-lists pass through unchanged) is the same document in both groups -/
+theorem proveSingleWith_rel (ho : OpsRel R o o') (H : List ByteArray → Int) (m : OvfMode)
+    (fourSq : Int → Outcome (List Int)) (common : List (String × Int)) {pk : PubKey G}
+    {pk' : PubKey G'} (hpk : PKRel R pk pk') {sig : Signature G} {sig' : Signature G'}
+    (hs : SigRel R sig sig') (un rev : List String) (pts : List (Pred × NeTape)) (vals : Values)
+    (m2Tilde : Int) (tp : EqTape) (nonce : ByteArray) (nrT nrC : List ByteArray) :
+    ORel (ProofRel R)
+      (proveSingleWith o H m fourSq common pk sig un rev pts vals m2Tilde tp nonce nrT nrC)
+      (proveSingleWith o' H m fourSq common pk' sig' un rev pts vals m2Tilde tp nonce nrT nrC) := by
+  unfold proveSingleWith
+  refine ORel.bind (initEqProof_rel ho common hpk hs un m2Tilde tp) fun i i' hi => ?_
+  rw [hi.mTilde]
+  refine ORel.bind (initPreds_rel ho m fourSq hpk _ vals pts) fun nis nis' hnis => ?_
+  simp only
+  rw [map_enc_rel ho (proverTaus_rel hi hnis), map_enc_rel ho (proverCList_rel hi hnis)]
+  refine ORel.bind (finalizeEqProof_rel hi _ un rev vals) fun eq eq' heq => ?_
+  refine ORel.map (finalizePreds_rel _ heq.m hnis) fun nes nes' hnes => ?_
+  exact ⟨List.Forall₂.cons ⟨heq, hnes, rfl, rfl⟩ List.Forall₂.nil, rfl, rfl⟩
+end withNonRevoc
+
 end CL.Pri
